@@ -211,6 +211,15 @@ def write_evidence(prop, tier, seed, mod, obs, results, new_viol, known_hits, wa
     n_assert = len(asserts)
     n_proved_assert = sum(1 for a in asserts if a["status"] == "proved")
     distinct_nontrivial = sum(a.get("nontrivial", 0) for a in asserts)
+    counters: Dict[str, int] = {}
+    for r in results:
+        for k, v in (r.get("counters") or {}).items():
+            counters[k] = counters.get(k, 0) + v
+    extra_rule = ""
+    src = getattr(mod, "NONTRIVIAL_FROM", None)
+    if src:
+        distinct_nontrivial += counters.get(src, 0)
+        extra_rule = " " + getattr(mod, "NONTRIVIAL_RULE", f"plus the measured counter '{src}'")
     samples = []
     for r in results:
         for s in r.get("samples", [])[:1]:
@@ -229,7 +238,8 @@ def write_evidence(prop, tier, seed, mod, obs, results, new_viol, known_hits, wa
         assertions_discharged=n_proved_assert,
         evaluations=int(agg["queries"]),
         distinct_nontrivial=int(distinct_nontrivial),
-        rule="one obligation = one harness function instance (configuration of D, axes, shapes, flags); one assertion = one tensor identity/inequality; element queries are de-duplicated by term identity, trivial = syntactically identical terms (not sent to the solver); distinct_nontrivial counts de-duplicated non-identical element pairs",
+        rule="one obligation = one harness function instance (configuration of D, axes, shapes, flags); one assertion = one tensor identity/inequality; element queries are de-duplicated by term identity, trivial = syntactically identical terms (not sent to the solver); distinct_nontrivial counts de-duplicated non-identical element pairs" + extra_rule,
+        counters=counters,
         samples=samples,
         solver=dict(engine="z3 " + _z3_version(), **{k: (round(v, 3) if isinstance(v, float) else v) for k, v in agg.items()}, max_query_s=round(max_q, 3)),
         vacuity_guards=dict(total=len(twins), ok=sum(1 for t in twins if t["status"] == "twin-ok")),
